@@ -128,6 +128,52 @@ func symConstInt(s *Sym) (int64, bool) {
 
 // NormCmp normalises the comparison denoted by value v taken with the given polarity
 // (truth=true: v holds). Returns nil if v is not an integer comparison.
+// reportedCmp: call is a call of a product function with exactly one return whose only result is
+// a comparison computed in the returning block (so nothing the function does comes after it).
+func (p *Prog) reportedCmp(call *ssa.Call) (*ssa.Function, *ssa.Return) {
+	fn := p.Callee(call)
+	if fn == nil || !p.IsProduct(fn) || !returnsBoolOnly(fn) {
+		return nil, nil
+	}
+	var only *ssa.Return
+	for _, b := range fn.Blocks {
+		if b == fn.Recover {
+			continue
+		}
+		if ret, ok := b.Instrs[len(b.Instrs)-1].(*ssa.Return); ok {
+			if only != nil {
+				return nil, nil
+			}
+			only = ret
+		}
+	}
+	if only == nil || len(only.Results) != 1 {
+		return nil, nil
+	}
+	base, _ := condOf(only.Results[0])
+	bo, ok := base.(*ssa.BinOp)
+	if !ok || bo.Block() != only.Block() {
+		return nil, nil
+	}
+	// nothing with effects between the comparison and the return
+	after := false
+	for _, in := range only.Block().Instrs {
+		if in == ssa.Instruction(bo) {
+			after = true
+			continue
+		}
+		if !after {
+			continue
+		}
+		switch in.(type) {
+		case *ssa.UnOp, *ssa.BinOp, *ssa.Return, *ssa.DebugRef, *ssa.Convert, *ssa.ChangeType:
+		default:
+			return nil, nil
+		}
+	}
+	return fn, only
+}
+
 func (p *Prog) NormCmp(v ssa.Value, truth bool) *Cmp {
 	base, neg := condOf(v)
 	if neg {
@@ -136,6 +182,15 @@ func (p *Prog) NormCmp(v ssa.Value, truth bool) *Cmp {
 	if call, isCall := base.(*ssa.Call); isCall {
 		// a condition hidden in an expression function: compare what the function returns
 		if fn, ret := p.exprFunc(call); ret != nil && len(ret.Results) == 1 {
+			if c := p.NormCmp(ret.Results[0], truth); c != nil {
+				c.L, c.R = p.substParams(call, fn, c.L), p.substParams(call, fn, c.R)
+				return c
+			}
+		}
+		// a function with effects that reports a comparison it evaluated last (`full := dsc.add(item)`
+		// = append, then `return len(join) >= JoinSize`): tested right after the call, the result
+		// denotes that comparison
+		if fn, ret := p.reportedCmp(call); ret != nil {
 			if c := p.NormCmp(ret.Results[0], truth); c != nil {
 				c.L, c.R = p.substParams(call, fn, c.L), p.substParams(call, fn, c.R)
 				return c
